@@ -385,6 +385,23 @@ pub fn cmd_text_dbcs(a: &HashMap<String, String>) -> i32 {
             n += 1;
         }
     }
+    // the scanning rule around every possible lead byte: in a double-byte page a lead byte consumes its trail byte
+    // unexamined - also when the trail is a caret and a marker letter / digit / caret follows - and a lead byte at the
+    // end of the input or before a NUL must not panic
+    for letter in [b'J', b'S', b'K', b'H'] {
+        for lead in 0x80u8..=0xFF {
+            for follow in *b"LGCETBJSKH89^a" {
+                let _ = writeln!(w, "{}", dec_event(&[b'^', letter, lead, b'^', follow, 0xC0, b'z']));
+                n += 1;
+            }
+            for tail in [&[][..], &[b'^'][..], &[b'^', b'^'][..], &[0x40, b'^', b'E', 0xE9][..]] {
+                let mut b = vec![b'^', letter, lead];
+                b.extend_from_slice(tail);
+                let _ = writeln!(w, "{}", dec_event(&b));
+                n += 1;
+            }
+        }
+    }
     println!("{}", json!({"events": n, "pairs": rows.len()}));
     0
 }
